@@ -17,7 +17,7 @@ ClauseName == <<"message outside the alphabet", "cache entry is not the import o
                 "DriverReceived = Sent", "ClientCache = DriverReturned", "ClientCache error = raised error",
                 "description", "clock">>
 (* evaluates to b; remembers the clause number when b is false *)
-Clause(n, b) == b \/ ~TLCSet(NT + t, n)
+Clause(n, b) == IF b THEN TRUE ELSE ~TLCSet(NT + t, n)
 
 Ev == Traces[t][l]
 TInit == /\ desc = {} /\ cache = [k \in AllKeys |-> Undef] /\ cbs = {} /\ waiting = {} /\ now = 0
